@@ -9,7 +9,8 @@
    of adds per task, every block size >= 1 and every schedule (no bound). *)
 From Coq Require Import String ZArith List Bool Arith.
 From SK Require Import Model.Base Model.Skel Model.Store Model.Par
-     Proofs.Par Proofs.ParLayout Gen.Skeleton Gen.Params.
+     Model.Stm Model.StoreSk Proofs.Par Proofs.ParLayout Gen.Skeleton
+     Gen.SkelTree Gen.Params.
 Import ListNotations.
 Open Scope Z_scope.
 
@@ -24,6 +25,24 @@ Proof. vm_compute. reflexivity. Qed.
    keeps all its accesses inside one critical section *)
 Theorem C06_well_locked_unproxy :
   one_section "store" is_access sk_unproxy_results = true.
+Proof. vm_compute. reflexivity. Qed.
+
+(* T1: the model gives every task its OWN local store.  That is the code's
+   ResultStoreParallel.local: a process without one builds it (from
+   self.preallocate and the block size), its creator gets it back, any
+   other process - e.g. a worker forked after the creator had used the
+   store - is refused with ResultStoreException; add only goes through it *)
+Theorem C06_local_store_is_per_process : forall owner pid,
+  run_local tk_rsp_local owner pid = Some (local_model owner pid).
+Proof.
+  intros [o|] pid; unfold local_model; [|vm_compute; reflexivity].
+  cbv -[Z.eqb]. destruct (o =? pid)%Z; reflexivity.
+Qed.
+
+Theorem C06_local_shape : no_reads_list tk_rsp_local = expected_rsp_local.
+Proof. vm_compute. reflexivity. Qed.
+
+Theorem C06_add_goes_through_local : tk_rsp_add = expected_rsp_add.
 Proof. vm_compute. reflexivity. Qed.
 
 (* parametric theorem: ANY pair of skeletons passing the checks *)
@@ -139,4 +158,5 @@ Print Assumptions C06_safe_for_well_locked_skeletons.
 Print Assumptions C06_safe_every_schedule.
 Print Assumptions C06_unlocked_refuted.
 Print Assumptions C06_never_fails.
+Print Assumptions C06_local_store_is_per_process.
 Print Assumptions C06_quiescent_means_all_synced.
